@@ -306,7 +306,7 @@ def check(ctx):
     _strip_patterns_bounded(ctx)
 
 
-def _reaper_records(ctx):
+def _reaper_records(ctx, rule="R9"):
     from ..engine import dtable as _dt
 
     JB = "xonsh/procs/jobs.py"
@@ -325,9 +325,11 @@ def _reaper_records(ctx):
             continue
         n += 1
         stored = [e for e in p_.effects if isinstance(e, ast.Assign) and any(isinstance(t, ast.Attribute) and t.attr == "returncode" and unparse(t.value) == procp for t in e.targets)]
-        from_status = any(any(isinstance(c, ast.Call) and (call_name(c) or "").split(".")[-1] in ("WTERMSIG", "WEXITSTATUS", "waitstatus_to_exitcode") for c in ast.walk(e.value)) for e in stored)
         kind = "signalled" if any("WIFSIGNALED" in t and pol for t, pol in conds) else "exited"
-        ctx.ob("R9", st, f"a path on which the child was reaped ({kind}) stores the status in {procp}.returncode", from_status, key=f"waitpid|status-not-recorded|{kind}", where=loc(fn), detail=None if from_status else "path: " + "; ".join(sorted(("" if pol else "not ") + t for t, pol in conds))[:300])
+        # ... and the right part of it: a signalled child has no exit status (WEXITSTATUS of its wait status is 0 = success)
+        want = ("WTERMSIG", "waitstatus_to_exitcode") if kind == "signalled" else ("WEXITSTATUS", "waitstatus_to_exitcode")
+        from_status = bool(stored) and all(any(isinstance(c, ast.Call) and (call_name(c) or "").split(".")[-1] in want for c in ast.walk(e.value)) for e in stored[-1:])
+        ctx.ob(rule, st, f"a path on which the child was reaped ({kind}) stores the status in {procp}.returncode ({'minus the signal number' if kind == 'signalled' else 'the exit status'}: what the chain's truthiness and the raise decision read)", from_status, key=f"waitpid|status-not-recorded|{kind}", where=loc(fn), detail=None if from_status else "path: " + "; ".join(sorted(("" if pol else "not ") + t for t, pol in conds))[:300])
     if n < 2:
         raise AnalysisError(f"{st}: only {n} reaping paths enumerated")
 
